@@ -67,7 +67,10 @@ class TailCallOptimization(FunctionPass):
             ):
                 tail_calls.append((block[-1], block[-2]))
 
-        if tail_calls:
+        # The old entry becomes a join point of the new entry and the tail
+        # call sites. Phi nodes it already has (entry block which is a loop
+        # header) have no value for those edges, leave such functions alone.
+        if tail_calls and not function.entry.phis:
             self.rewrite_tailcalls(function, tail_calls)
 
     def _replace_entry(self, function):
@@ -78,6 +81,8 @@ class TailCallOptimization(FunctionPass):
         function.add_block(new_entry)
         function.blocks.insert(0, function.blocks.pop())
         old_entry = function.entry
+        # The old entry can be a loop header:
+        loop_predecessors = old_entry.predecessors
         function.entry = new_entry
         new_entry.add_instruction(ir.Jump(old_entry))
 
@@ -91,6 +96,11 @@ class TailCallOptimization(FunctionPass):
 
             # Add the trivial input branch for the phi node from entry:
             arg_phi.set_incoming(new_entry, argument)
+
+            # On the existing edges into the old entry the argument keeps
+            # its value:
+            for predecessor in loop_predecessors:
+                arg_phi.set_incoming(predecessor, arg_phi)
         return old_entry, arg_phis
 
     def rewrite_tailcalls(self, function, tail_calls):
